@@ -7,10 +7,95 @@ C15 line-protocol driver:  `lake env lean --run Sc3Verif/C15/Driver.lean < ops`
   l <term>              lifting model (Model.lean): evaluate an operator expression, see `Lift.parse`
   reset                 echoed (separates cases)
 -/
+import Lean.Data.Json
 import Sc3Verif.C15.GenKernels
-import Sc3Verif.C15.Model
+import Sc3Verif.C15.GenOps
 open Sc3Verif.C15
 open Sc3Verif.C15.Gen
+open Lean (Json)
+
+namespace LiftIO
+open Sc3Verif.C15.Lift
+
+def scalarOf (j : Json) : Option Sc :=
+  match j with
+  | .arr #[.str "num", .str t] => some (.atom t)
+  | .arr #[.str "sym", .str t] => some (.atom ("s:" ++ t))
+  | _ => none
+
+/-- operand description → object (see harness/impl/c15.py `LiftRunner.build`) -/
+partial def build (j : Json) : Option Obj :=
+  match j with
+  | .arr #[.str "num", .str t] => some (.sc (.atom t))
+  | .arr #[.str "sym", .str t] => some (.sc (.atom ("s:" ++ t)))
+  | .arr #[.str "fn", .str tag] => some (.fn fun x => .app "call" [.atom ("s:" ++ tag), x])
+  | .arr #[.str "fnc", .str tag] => some (.fn fun x => .app "neg" [.app "call" [.atom ("s:" ++ tag), x]])
+  | .arr #[.str "strm", .arr items] => do
+      let vs ← items.toList.mapM scalarOf
+      some (.strm false fun i => vs[i]?)
+  | .arr #[.str "pat", .arr items] => do
+      let vs ← items.toList.mapM scalarOf
+      some (.strm true fun i => vs[i]?)
+  | .arr #[.str "list", .arr items] => do some (.seq .list (← items.toList.mapM build))
+  | .arr #[.str "tuple", .arr items] => do some (.seq .tuple (← items.toList.mapM build))
+  | .arr #[.str "chan", .arr items] => do some (.seq .chan (← items.toList.mapM build))
+  | .arr #[.str "opnd", v] => do some (.opnd (← scalarOf v))
+  | _ => none
+
+partial def scJson : Sc → Json
+  | .atom t => .str t
+  | .app sel args => .arr ((Json.str sel :: args.map scJson).toArray)
+
+partial def observe (take : Nat) : Obj → Json
+  | .sc v => scJson v
+  | .opnd v => .arr #[.str "opnd", scJson v]
+  | .fn f => .arr #[.str "fnval", scJson (f (.atom "s:x"))]
+  | .strm p s =>
+    let rec go (i : Nat) (acc : List Json) : List Json :=
+      if i ≥ take then acc.reverse
+      else match s i with
+        | some v => go (i + 1) (scJson v :: acc)
+        | none => (Json.str "stop" :: acc).reverse
+    .arr ((Json.str (if p then "pat" else "strm") :: go 0 []).toArray)
+  | .seq k xs =>
+    let tag := match k with | .list => "list" | .tuple => "tuple" | .chan => "chan"
+    .arr ((Json.str tag :: xs.map (observe take)).toArray)
+  | .err e => .str ("E:" ++ e)
+
+def seqKOf : String → SeqK
+  | "tuple" => .tuple | "chan" => .chan | _ => .list
+
+def runCase (j : Json) : String :=
+  let str (k : String) : String := (j.getObjValAs? String k).toOption.getD ""
+  let take := (j.getObjValAs? Nat "take").toOption.getD 8
+  match j.getObjVal? "args" with
+  | .ok (.arr as) =>
+    match as.toList.mapM build with
+    | none => "bad-operand"
+    | some args =>
+      let name := str "name"
+      let res : Obj :=
+        match str "via", args with
+        | "pyop", [a, b] => pyBinary GenOps.ops name a b
+        | "pyop", [a] => if a.hook?.isSome then pyMethod GenOps.ops s!"__{name}__" a [] else numeric name [a]
+        | "meth", a :: rest => pyMethod GenOps.ops name a rest
+        | "bi", _ =>
+          (match GenOps.builtinKinds.find? (·.1 == name) with
+           | some (_, kind) => pyBuiltin kind name args
+           | none => .err "AttributeError")
+        | "listfn", _ =>
+          let t := seqKOf (str "t")
+          let sel := str "sel"
+          (match name, args with
+           | "list_unop", [a] => listUnop (applyUn sel fuel) fuel a t
+           | "list_binop", [a, b] => listBinop (applyBin sel fuel) fuel a b t
+           | "list_narop", a :: rest => listNarop (applyNar sel fuel) rest fuel a t
+           | _, _ => .err "TypeError")
+        | _, _ => .err "bad-via"
+      (observe take res).compress
+  | _ => "bad-case"
+
+end LiftIO
 
 def parseRat (s : String) : Option Rat :=
   match s.splitOn "/" with
@@ -54,7 +139,10 @@ partial def loop (h : IO.FS.Stream) (out : IO.FS.Stream) : IO Unit := do
   else
     match (l.splitOn " ").filter (· ≠ "") with
     | "k" :: ws => out.putStrLn (runKernel ws)
-    | "l" :: _ => out.putStrLn (Lift.run (l.drop 2).toString)
+    | "l" :: _ =>
+      match Json.parse (l.drop 2).toString with
+      | .ok j => out.putStrLn (LiftIO.runCase j)
+      | .error e => out.putStrLn s!"bad-json {e}"
     | _ => out.putStrLn "bad-op"
   loop h out
 
